@@ -313,10 +313,10 @@ Section Gen.
     sm (gen_pctdiff cl cr t) = doc_pctdiff x y tq.
   Proof.
     intros Hx Hy Ht Hz. unfold gen_pctdiff. rewrite sem_cmp.
-    change (ev (EArith Div ?a ?b)) with (arith_val P Div (ev a) (ev b)).
+    change (ev (EParen (EArith Div ?a ?b))) with (arith_val P Div (ev a) (ev b)).
     rewrite (eval_larger cl cr x y Hx Hy). cbn [eval]. rewrite Hx, Hy. cbn. rewrite Hz.
     erewrite cmp3_thresh by (reflexivity || eauto). unfold doc_pctdiff. cbn [sat].
-    now rewrite !Qred_correct.
+    now rewrite !Qred_correct, Qmult_1_l.
   Qed.
   Lemma sem_pctdiff_zero cl cr t x y tq :
     ev cl = VNum x -> ev cr = VNum y -> numQ t = Some tq -> Qeq_bool (Qmaxb x y) 0 = true ->
@@ -324,10 +324,31 @@ Section Gen.
     isT (sm (gen_pctdiff cl cr t)) = false.
   Proof.
     intros Hx Hy Ht Hz Hd. unfold gen_pctdiff. rewrite sem_cmp.
-    change (ev (EArith Div ?a ?b)) with (arith_val P Div (ev a) (ev b)).
+    change (ev (EParen (EArith Div ?a ?b))) with (arith_val P Div (ev a) (ev b)).
     rewrite (eval_larger cl cr x y Hx Hy). cbn [eval]. rewrite Hx, Hy. cbn. rewrite Hz.
     destruct Hd as [-> | ->]; [reflexivity|].
     apply numQ_xnum in Ht as [Ht Nt]. unfold cmp3. rewrite Nt. cbn. unfold val_le. rewrite Ht. reflexivity.
+  Qed.
+  (* INTEGER operands: real division on EVERY engine profile (also SQLite's truncating integer `/`) *)
+  Lemma eval_larger_int cl cr x y :
+    ev cl = VInt x -> ev cr = VInt y ->
+    ev (EParen (ECase [(ECmp CGt cr cl, cr)] cl)) = VInt (if Qle_bool (inject_Z y) (inject_Z x) then x else y).
+  Proof.
+    intros Hx Hy. cbn [eval]. rewrite Hx, Hy.
+    erewrite cmp3_thresh by reflexivity. cbn [sat].
+    destruct (Qle_bool (inject_Z y) (inject_Z x)); reflexivity.
+  Qed.
+  Lemma sem_pctdiff_int cl cr t x y tq :
+    ev cl = VInt x -> ev cr = VInt y -> numQ t = Some tq -> Qeq_bool (Qmaxb (inject_Z x) (inject_Z y)) 0 = false ->
+    sm (gen_pctdiff cl cr t) = doc_pctdiff (inject_Z x) (inject_Z y) tq.
+  Proof.
+    intros Hx Hy Ht Hz. unfold gen_pctdiff. rewrite sem_cmp.
+    change (ev (EParen (EArith Div ?a ?b))) with (arith_val P Div (ev a) (ev b)).
+    rewrite (eval_larger_int cl cr x y Hx Hy). cbn [eval]. rewrite Hx, Hy. unfold Qmaxb in Hz.
+    cbn [arith_val abs_val numQ]. destruct (Qle_bool (inject_Z y) (inject_Z x)) eqn:E; cbn [numQ]; rewrite Hz;
+      (erewrite cmp3_thresh by (reflexivity || eauto)); unfold doc_pctdiff, Qmaxb; cbn [sat]; rewrite E;
+      change (inject_Z (Z.abs (x - y))) with (Qabs (inject_Z (x - y)));
+      now rewrite !Qred_correct, Qmult_1_l, inject_Z_minus.
   Qed.
 
   (* AbsoluteTimeDifferenceLevel / AbsoluteDateDifferenceLevel over an abstract epoch *)
@@ -665,14 +686,15 @@ Lemma levels_ok_null_first ls P fenv env e0 rest :
   ls = {| l_null := true; l_cond := Some e0 |} :: rest -> sem P fenv env e0 = T -> level_of P fenv env ls = 0.
 Proof. intros -> HT. unfold level_of, conds. cbn. now rewrite HT. Qed.
 
-(* PercentageDifferenceLevel on SQLite with INTEGER operands: the faithful model (integer
-   division) is satisfied although the documented percentage difference is 2/3 >= 1/10 *)
+(* the term emitted BEFORE splink 89a1dbc7 (no 1.0 factor) on SQLite with INTEGER operands: the faithful model (integer
+   division) is satisfied although the documented percentage difference is 2/3 >= 1/10; the current term is not *)
 Lemma pctdiff_sqlite_integer_witness :
   let env := fun (s : bool) (_ : string) => if s then VInt 3 else VInt 9 in
-  sem sqlite_profile (std_fenv []) env (gen_pctdiff (ECol true "x") (ECol false "x") (VNum (1 # 10))) = T
+  sem sqlite_profile (std_fenv []) env (gen_pctdiff_old (ECol true "x") (ECol false "x") (VNum (1 # 10))) = T
   /\ doc_pctdiff 3 9 (1 # 10) = F
-  /\ sem duckdb_profile (std_fenv []) env (gen_pctdiff (ECol true "x") (ECol false "x") (VNum (1 # 10))) = F.
-Proof. vm_compute. auto. Qed.
+  /\ sem duckdb_profile (std_fenv []) env (gen_pctdiff_old (ECol true "x") (ECol false "x") (VNum (1 # 10))) = F
+  /\ sem sqlite_profile (std_fenv []) env (gen_pctdiff (ECol true "x") (ECol false "x") (VNum (1 # 10))) = F.
+Proof. vm_compute. repeat split. Qed.
 
 (* ------------------------------------------------------------------ arrays as sets *)
 Lemma mem_str_In s l : mem_str s l = true <-> In s l.
